@@ -1,7 +1,6 @@
 package c19
 
 import (
-	"bytes"
 	"encoding/xml"
 	"fmt"
 	"math/rand"
@@ -472,5 +471,3 @@ func encodeAllQuiet(v any) (out []encoded, panicked bool) {
 	out = append(out, encoded{"xml.Marshal", b, err})
 	return out, false
 }
-
-var _ = bytes.MinRead
